@@ -185,12 +185,90 @@ class InitCentroids(Contract):
         return NdArr.fresh("centers0", (a.k, a.X.shape[1]), "real")
 
 
-@contract(K + "::_centers_dense", "C06", assumed=True)
+def in_range(E, X, v, j):
+    """v lies between two entries of column j of X"""
+    r1, r2 = z3.Int("r1!range"), z3.Int("r2!range")          # fixed names: two statements of the same fact are the same formula
+    n = z(X.shape[0])
+    return z3.Exists([r1, r2], z3.And(r1 >= 0, r1 < n, r2 >= 0, r2 < n, X.get(r1, j) <= v, v <= X.get(r2, j)))
+
+
+def centres_in_range(E, X, C, upto=None, only=None):
+    c, j = z3.Int("c!range"), z3.Int("j!range")
+    k = z(C.shape[0]) if upto is None else z(upto)
+    guard = z3.And(c >= 0, c < k, j >= 0, j < z(C.shape[1]))
+    if only is not None:
+        guard = z3.And(guard, only(c))
+    return z3.ForAll([c, j], z3.Implies(guard, in_range(E, X, C.get(c, j), j)))
+
+
+@contract(K + "::_centers_dense", "C06")
 class CentersDense(Contract):
-    """ASSUMED (M-step: medians per cluster, relocation of empty clusters): n_clusters centres of the data's dimension"""
+    """M-step: PROVED that every coordinate of every returned centre lies within the range of that coordinate in the data (a median
+    of the cluster's points, or a data point for a cluster without points) - given numpy.median's bounds (assumed)"""
+    max_paths = 20000
+
+    def setup(self, E, v):
+        n, d, k = E.size("n", 1), E.size("d", 1), E.size("k", 1)
+        return dict(X=E.nd("X", (n, d)), sample_weight=E.nd("w", (n,)), labels=E.nd("labels", (n,), "int"), n_clusters=k,
+                    distances=E.nd("distances", (n,)), X_sort_index=E.nd("X_sort_index", (n, d), "int"))
+
+    def requires(self, E, a):
+        n, k = z(a.X.shape[0]), z(a.n_clusters)
+        i = z3.Int(models.fresh_name("i"))
+        return {"labels_are_clusters": z3.ForAll([i], z3.Implies(z3.And(i >= 0, i < n), z3.And(a.labels.get(i) >= 0, a.labels.get(i) < k))),
+                "at_least_as_many_points_as_clusters": n >= k,
+                "one_label_weight_and_distance_per_point": z3.And(z(a.labels.shape[0]) == n, z(a.sample_weight.shape[0]) == n, z(a.distances.shape[0]) == n)}
+
+    def old(self, E, a):
+        return dict(w=a.X.cell.writes)
+
+    @staticmethod
+    def _weights(E, L):
+        # a cluster without any point seen so far still has weight zero
+        lab, wic = L["labels"], L["weight_in_cluster"]
+        c, i = z3.Int(models.fresh_name("c")), z3.Int(models.fresh_name("i"))
+        k = z(L["n_clusters"])
+        return {"clusters_without_points_so_far_have_weight_zero": z3.ForAll([c], z3.Implies(
+            z3.And(c >= 0, c < k, z3.ForAll([i], z3.Implies(z3.And(i >= 0, i < z(L.i)), lab.get(i) != c))), wic.get(c) == 0)),
+            "centres_untouched": z3.And(z(L["centers"].shape[0]) == k, z(wic.shape[0]) == k)}
+
+    @staticmethod
+    def _relocate(E, L):
+        # the empty clusters handled so far sit on data points
+        X, C, emp = L["X"], L["centers"], L["empty_clusters"]
+        s, j = z3.Int(models.fresh_name("s")), z3.Int(models.fresh_name("j"))
+        return {"relocated_centres_are_data_points": z3.ForAll([s, j], z3.Implies(
+            z3.And(s >= 0, s < z(L.k), j >= 0, j < z(C.shape[1])), in_range(E, X, C.get(emp.get(s), j), j)))}
+
+    @staticmethod
+    def _medians(E, L):
+        X, C = L["X"], L["centers"]
+        try:
+            emp = L["empty_clusters"]
+            cond, fm, rank, unrank = emp.cell.where_of
+            is_empty = lambda c: fm.get(c)
+        except (KeyError, AttributeError):
+            return {"empty_clusters_known": z3.BoolVal(False)}
+        return {"centres_done_so_far_are_in_range": centres_in_range(E, X, C, upto=L.i),
+                "relocated_centres_still_in_range": centres_in_range(E, X, C, only=is_empty)}
+    loops = {0: _weights.__func__, 1: _relocate.__func__, 2: _medians.__func__}
 
     def result(self, E, a, old):
         return NdArr.fresh("centers", (a.n_clusters, a.X.shape[1]), "real")
+
+    def signals(self, E, a, exc, old):
+        if exc == "NotImplementedError":
+            return {"only_non_uniform_weights_are_refused": z3.BoolVal(True)}
+        return None
+
+    def ensures(self, E, a, res, old):
+        ok = isinstance(res, NdArr) and res.ndim == 2
+        out = {"one_centre_per_cluster_of_the_data_dimension": z3.BoolVal(ok) if not ok else z3.And(
+            z(res.shape[0]) == z(a.n_clusters), z(res.shape[1]) == z(a.X.shape[1]))}
+        if ok:
+            out["every_centre_lies_within_the_coordinate_wise_range_of_the_data"] = centres_in_range(E, a.X, res)
+            out["data_not_written"] = z3.BoolVal(a.X.cell.writes == old["w"])
+        return out
 
 
 @contract(K + "::_tolerance", "C06", assumed=True)
@@ -208,7 +286,8 @@ def _run_ok(E, labels, inertia, centers, X, k):
         return {"labels_and_centres_are_arrays": z3.BoolVal(False)}
     return {"one_label_per_point_and_k_centres_of_the_data_dimension": z3.And(
         z(labels.shape[0]) == z(X.shape[0]), z(centers.shape[0]) == z(k), z(centers.shape[1]) == z(X.shape[1])),
-        "labels_are_nearest_to_the_returned_centres_unless_the_last_shift_was_zero": z3.Or(staleF(labels.cell.term), nearest(E, labels, X, centers))}
+        "labels_are_nearest_to_the_returned_centres_unless_the_last_shift_was_zero": z3.Or(staleF(labels.cell.term), nearest(E, labels, X, centers)),
+        "every_centre_lies_within_the_coordinate_wise_range_of_the_data": centres_in_range(E, X, centers)}
 
 
 @contract(K + "::_kmeans_single_lloyd", "C06")
@@ -244,6 +323,8 @@ class SingleRun(Contract):
             ok = isinstance(bl, NdArr) and isinstance(bc, NdArr)
             out["best_labels_and_centres_have_the_right_shapes"] = z3.BoolVal(False) if not ok else z3.And(
                 z(bl.shape[0]) == z(X.shape[0]), z(bc.shape[0]) == z(k), z(bc.shape[1]) == z(X.shape[1]))
+            if ok:
+                out["best_centres_are_within_the_range_of_the_data"] = centres_in_range(E, X, bc)
         return out
     loops = {0: _inv.__func__}
 
@@ -366,12 +447,14 @@ META = dict(
     level="proof", assumptions=["A1", "A2", "A6", "A7", "A9"],
     trusted=["pairwise_distances_argmin_min(metric='manhattan') returns an index of a Manhattan-nearest row and that distance; manhattan_distances is the "
              "matrix of those distances; KMeans.fit/predict/transform are scikit-learn's (L2 equality is equality by delegation)",
-             "ASSUMED in-repo steps of the L1 fit: _init_centroids (k-means++ / random / given array: k centres of the data's dimension), _centers_dense "
-             "(M-step: medians, relocation of empty clusters), _tolerance; check_random_state / check_array / _check_sample_weight / numpy.isclose models",
+             "ASSUMED in-repo steps of the L1 fit: _init_centroids (k-means++ / random / given array: k centres of the data's dimension), _tolerance; "
+             "check_random_state / check_array / _check_sample_weight / numpy.isclose / numpy.where / argsort models; numpy.median lies, per column, "
+             "between two entries of that column",
              "ghost flag of a run (labels_of_a_run_that_stopped_with_zero_centre_shift): only ever assumed positively - a run that stops with a centre "
              "shift of exactly zero promises nothing about its labels here (they rely on the convergence argument of Lloyd's algorithm, not proved)"],
-    not_applicable=["centres within the coordinate-wise range of the data, fit succeeds on >= k distinct points: numerical M-step (_centers_dense medians, "
-                    "relocation) - bounded stand-in on all small grids",
+    not_applicable=["fit succeeds on >= k distinct points (uniform weights only: non-uniform weights raise NotImplementedError in the M-step) - bounded stand-in "
+                    "on all small grids.  Centres within the coordinate-wise range of the data IS proved: _centers_dense (three real loops: weights per "
+                    "cluster, relocation of empty clusters onto data points, medians) and carried by contracts through _kmeans_single_lloyd, _fit_l1 and fit",
                     "labels_/inertia_ consistent with the returned centres when the last centre shift is exactly zero (convergence argument); "
                     "convergence / optimality"],
 )
